@@ -414,7 +414,15 @@ def rule_path_is_walked_as_stated(ctx: Ctx, rep: Report) -> None:
     rep.floor(rule, 2)
 
 
+def rule_hashable_membership_(ctx: Ctx, rep: Report) -> None:
+    """C07.hashable_membership: no prefix test hashes a slice of octets that may be a bytearray (see sigcommon.rule_hashable_membership)."""
+    from rules.sigcommon import rule_hashable_membership
+    rule_hashable_membership(ctx, rep, "C07.hashable_membership", ('btclib.bip32',))
+
+
 RULES = [
+    ("C07.hashable_membership", rule_hashable_membership_),
+
     ("C07.path_is_walked_as_stated", rule_path_is_walked_as_stated),
 
     ("C07.no_stale_cache", rule_no_stale_cache_),
